@@ -4,6 +4,6 @@ import "verif/harness/internal/hx"
 
 func main() {
 	hx.Main(map[string]func(*hx.Ctx) error{
-		"probe": driveProbe,
+		"events": driveEvents,
 	})
 }
